@@ -393,7 +393,7 @@ pub fn build() -> Property {
     Property {
         id: "C11",
         rule: "Per status word type (IHW, TDH, TDT, DDW0), enumerated completely: all 256 identifier bytes x {all-zero rest, valid rest}; with the right identifier every 1-bit (72) and 2-bit (2556) pattern over the other 72 bits, \
-               all-ones, inverted valid value, whole bytes FF. Data words: all 256 ids x 28 single-lane masks, empty mask and their complements, through the three predicates and end to end through the payload validator \
+               all-ones, inverted valid value, whole bytes FF. Data words: all 256 ids x 28 single-lane masks, empty mask and their complements, through the three predicates and end to end through the payload validator at two positions (directly after the TDH, where id 0xF8 is a calibration word, and behind a data word, where it is an invalid data word id) \
                (running and sanity-only). Plus proptest-random 80-bit values (64 per case) and end-to-end status words in the state that expects them. Oracle: independent reference predicates written from the documented bit layout. \
                Every enumerated case is distinct and non-trivial (both verdicts occur for every type: see label histogram).",
         assumptions: vec![
